@@ -1379,7 +1379,8 @@ func (s *State) evalArrayInfixExpression(operator token.Type, left, right object
 		}
 		rightArr := object.Elements(right)
 		object.MustBeOk(len(leftVal) + len(rightArr))
-		return object.NewArray(append(leftVal, rightArr...))
+		// Concat always allocates: a + [] must not share its storage with a either (big arrays are updated in place).
+		return object.NewArray(slices.Concat(leftVal, rightArr))
 	default:
 		return s.Errorf("unknown operator: %s %s %s",
 			left.Type(), operator, right.Type())
